@@ -424,7 +424,9 @@ class Problem:
             all_vars.update(get_all_variables(self._objective))
 
         for constraint in self._constraints:
-            all_vars.update(constraint.get_variables())
+            # like the objective: deep (loop-built) constraint expressions
+            # must not hit the recursion limit
+            all_vars.update(get_all_variables(constraint.expr))
 
         self._variables = sorted(all_vars, key=_natural_sort_key)
         return self._variables
